@@ -72,6 +72,17 @@ func c15Decl(r *Rand, kind string) *Decl {
 			}
 		}
 	}
+	if kind == "command-list" {
+		// two aliases (of different commands) and two names at the same distance from the words the scenario uses;
+		// set before the first build, so that tag-declared commands carry them as well
+		if len(d.Root.Subs) >= 2 {
+			d.Root.Subs[0].Aliases = append(d.Root.Subs[0].Aliases, "ins")
+			d.Root.Subs[1].Aliases = append(d.Root.Subs[1].Aliases, "inx")
+		}
+		if len(d.Root.Subs) >= 4 {
+			d.Root.Subs[2].Name, d.Root.Subs[3].Name = "c0a", "c0b"
+		}
+	}
 	if kind == "completion-list" || kind == "help-full" || kind == "required-list" {
 		// names that differ only in letter case (an ordering that ignores case would leave them to chance)
 		var shortOnly, longs []*Opt
@@ -305,14 +316,7 @@ func c15Run(c *Ctx) {
 		}
 	case "command-list":
 		word := []string{"", "zzz", "c0", "inz"}[r.Intn(4)]
-		// two aliases (of different commands) and two names at the same distance from the word
-		if len(d0.Root.Subs) >= 2 {
-			d0.Root.Subs[0].Aliases = append(d0.Root.Subs[0].Aliases, "ins")
-			d0.Root.Subs[1].Aliases = append(d0.Root.Subs[1].Aliases, "inx")
-		}
-		if len(d0.Root.Subs) >= 4 {
-			d0.Root.Subs[2].Name, d0.Root.Subs[3].Name = "c0a", "c0b"
-		}
+		// (c15Decl gave two commands the aliases ins / inx and two others the names c0a / c0b: ties at equal distance)
 		eval = func() (string, error) {
 			_, b := mk()
 			var args []string
